@@ -3,10 +3,11 @@ import re, itertools
 from vlib import core
 
 PROP = 'C16'
-MODULES = ['PistacheModel.Props.C16']
+MODULES = ['PistacheModel.Props.C16', 'PistacheModel.Props.C16Lookup']
 THEOREMS = ['Pistache.Headers.Props.' + t for t in (
     'cache_tables_prefix_free', 'cache_tables_consistent', 'cache_step', 'cache_roundtrip', 'connection_roundtrip',
-    'encoding_roundtrip', 'expect_roundtrip', 'content_length_roundtrip', 'server_roundtrip', 'host_roundtrip_plain')]
+    'encoding_roundtrip', 'expect_roundtrip', 'content_length_roundtrip', 'server_roundtrip', 'host_roundtrip_plain')] + \
+    ['Pistache.Parser.Props.' + t for t in ('rawGet_any_case', 'rawGet_insert', 'raw_first_wins')]
 
 def hx(b):
     if isinstance(b, str): b = b.encode('latin-1')
@@ -85,6 +86,23 @@ def gen(tier, rnd):
         L.append('hdr Date ' + hx(t))
     for nme in ['X-Unknown', 'Allow', 'content-type', 'Cookie']:
         L.append('hdr %s %s' % (nme, hx('x')))
+    # lookup under any capitalisation: every registered name and unknown names over the whole alphabet, queried under re-capitalisations
+    import string
+    regs = ['Accept', 'Access-Control-Allow-Origin', 'Access-Control-Allow-Headers', 'Access-Control-Expose-Headers', 'Access-Control-Allow-Methods', 'Allow', 'Cache-Control',
+            'Connection', 'Content-Encoding', 'Content-Type', 'Authorization', 'Expect', 'Host', 'Location', 'Server', 'User-Agent']
+    vals = {'Accept': 'text/html', 'Cache-Control': 'no-cache', 'Content-Type': 'text/plain', 'Host': 'example.com:8080', 'Transfer-Encoding': 'gzip', 'Content-Encoding': 'gzip'}
+    def variants(name):
+        vs = {name, name.lower(), name.upper(), name.swapcase(), ''.join(c.upper() if i % 2 else c.lower() for i, c in enumerate(name))}
+        for _ in range(3): vs.add(''.join(c.upper() if rnd.random() < .5 else c.lower() for c in name))
+        return sorted(vs)
+    unk = ['X-' + string.ascii_lowercase, 'X-' + string.ascii_uppercase[::-1], 'Zz-Top', 'x-zone', 'QUIZ', 'a', 'Z'] + ['X-' + tok(rnd, 1, 10) for _ in range(10 if tier == 'quick' else 100)]
+    for name in regs + unk:
+        for sent in variants(name)[:4]:
+            v = vals.get(name, tok(rnd, 1, 10))
+            dup = rnd.choice(variants(name))
+            msg = 'GET / HTTP/1.1\r\n%s: %s\r\nX-Other: 1\r\n%s: second\r\n\r\n' % (sent, v, dup) if name not in regs else 'GET / HTTP/1.1\r\n%s: %s\r\nX-Other: 1\r\n\r\n' % (sent, v)
+            qs = variants(name) + ['X-Absent', name + 'x']
+            L.append('hlookup %s %s' % (hx(msg), ','.join(hx(q) for q in qs)))
     return L
 
 BAD = ('ASAN', 'UBSAN', 'HANG', 'CRASH', 'TERMINATE', 'MISSING')
@@ -93,6 +111,23 @@ def oracle(line, out):
     w = line.split()
     if out.startswith(BAD):
         return ('memory', 'implementation aborted/hung: ' + out)
+    if w[0] == 'hlookup':
+        msg = unhx(w[1]).decode('latin-1'); qs = [unhx(q).decode('latin-1') for q in w[2].split(',')]
+        first = {}
+        for ln in msg.split('\r\n')[1:]:
+            if ':' in ln:
+                k, v = ln.split(':', 1); first.setdefault(k.lower(), v.lstrip(' '))
+        if not out.startswith('ok'):
+            return ('lookup', 'well-formed request not parsed: ' + out[:60])
+        got = out.split()[1:]
+        for q, g in zip(qs, got):
+            exp = first.get(q.lower())
+            val = g.split('/')[0]
+            if exp is None:
+                if val != '~': return ('lookup', 'header %r found although absent' % q)
+            elif val == '~' or unhx(val).decode('latin-1') != exp:
+                return ('lookup', 'header sent in %r looked up as %r gives %s, expected first value %r' % (msg.split(chr(13))[1], q, val, exp))
+        return None
     if w[0] == 'hdrw':
         if w[1] == 'Host' and w[3] == '0':
             return None      # port 0 is the API's "no port" sentinel: outside the statement
